@@ -89,6 +89,16 @@ var c01Exemplars = []struct {
 	opts    []string
 	texts   map[string]string
 }{
+	// regression exemplars of repaired defects (status "fixed": a diagnostic here is a violation again)
+	{"fixed-constant-type-is-the-only-use-of-an-include", "go", nil, map[string]string{
+		"main.thrift":   "include \"shared.thrift\"\nnamespace go kf.onlyconst\nconst shared.Name EMPTY = \"x\"\nconst shared.Num N = 3\n",
+		"shared.thrift": "namespace go kf.onlyconst.shared\ntypedef string Name\ntypedef i32 Num\n"}},
+	{"fixed-struct-literal-field-type-of-a-third-file", "fastgo", nil, map[string]string{
+		"main.thrift":   "include \"base.thrift\"\nnamespace go kf.third.mainpkg\nconst base.User U = {\"id\": 3}\nstruct S { 1: base.User u = {\"id\": 4} }\n",
+		"base.thrift":   "include \"shared.thrift\"\nnamespace go kf.third.base\nstruct User { 1: shared.Name id, 2: optional shared.Name alt }\n",
+		"shared.thrift": "namespace go kf.third.shared\ntypedef i32 Name\n"}},
+	{"fixed-escaped-double-quote-in-single-quoted-literal", "go", nil, map[string]string{
+		"main.thrift": "namespace go kf.quotes\nconst string A = 'a\\\"b'\nconst string B = \"c\\\\\\\"d\"\nstruct S { 1: string f = 'say \\\"hi\\\"' }\n"}},
 	{"fastgo-two-files-one-package", "fastgo", nil, map[string]string{
 		"main.thrift":  "include \"other.thrift\"\nnamespace go kf.samepkg\nstruct A { 1: other.B b }\n",
 		"other.thrift": "namespace go kf.samepkg\nstruct B { 1: i32 x }\n"}},
